@@ -59,7 +59,7 @@ from fractions import Fraction
 TOLS = [-1.0, 0.0, 1e-12, 1e-9, 1e-6, 1e-3, 0.1, 1.0, 10.0]
 U = Fraction(1, 2 ** 53)
 
-RULE = ("(round 4: abscissae in the top binades - both interval ends between 2^1015 and f64::MAX, half of them beyond 2^1023, same sign or across 0, relative width 2^-50..1, degree 0 / 1 with slopes 2^-1030..2^-1010 or lifted to a few binades under the top - judged by evaluating the rule literally at its exact nodes [abscissae up to 2^1024 - 2^990 are in range when every quantity the rule forms stays below 2^1023]; repeated sample values: f equal at both ends / at ends and middle / at every node / at the first two nodes without being constant) (round 3, the edge of the number range: amplitudes that put the largest quantity of the rule - weighted sample sums, their products with h and 3 h - at 0.55..0.97 of 2^1023 or within 40 binades below the crude bound; amplitudes 2^-990..2^-1080 judged with an absolute underflow allowance of a few units of 2^-1074 instead of a blanket floor; widths that are small multiples of 2^-1074 under amplitudes of 2^900..2^1015; abscissae at 2^(1000/deg) with narrow [relative 2^-1..2^-50] and wide intervals; intervals wider than f64::MAX; abscissae inside the subnormal range) simpson: the segment counts 1,2,3,4,5,7 on every degree 0..8 x both polynomial types x four interval "
+RULE = ("(round 5: interval ends that are exact roots of a derivative of the integrand - the k-th derivative is c (x-a)(x-b) q(x) [or with a double root at one end / the midpoint as a third root], k = 4 in most cases [degree 6..8] and k = 1, 2, 3, 5, 6, integrated k times with small-integer / dyadic coefficients so that the derivative evaluates to exactly 0.0 at both ends, n = 3..200, every representation; judged by the error-bound clause in exact rationals) (round 4: abscissae in the top binades - both interval ends between 2^1015 and f64::MAX, half of them beyond 2^1023, same sign or across 0, relative width 2^-50..1, degree 0 / 1 with slopes 2^-1030..2^-1010 or lifted to a few binades under the top - judged by evaluating the rule literally at its exact nodes [abscissae up to 2^1024 - 2^990 are in range when every quantity the rule forms stays below 2^1023]; repeated sample values: f equal at both ends / at ends and middle / at every node / at the first two nodes without being constant) (round 3, the edge of the number range: amplitudes that put the largest quantity of the rule - weighted sample sums, their products with h and 3 h - at 0.55..0.97 of 2^1023 or within 40 binades below the crude bound; amplitudes 2^-990..2^-1080 judged with an absolute underflow allowance of a few units of 2^-1074 instead of a blanket floor; widths that are small multiples of 2^-1074 under amplitudes of 2^900..2^1015; abscissae at 2^(1000/deg) with narrow [relative 2^-1..2^-50] and wide intervals; intervals wider than f64::MAX; abscissae inside the subnormal range) simpson: the segment counts 1,2,3,4,5,7 on every degree 0..8 x both polynomial types x four interval "
         "kinds, then every n in 1..200 x (10 quick / 400 thorough) random polynomials (half of degree <= 3, half 4..8; "
         "small dyadic coefficients; intervals dyadic, reversed, empty, symmetric, decimal, arbitrary); romberg: every "
         "cap 0..64 x every tolerance in {-1,0,1e-12,1e-9,1e-6,1e-3,0.1,1,10} x (5 quick / 61 thorough) polynomials "
